@@ -392,8 +392,14 @@ theorem step_refines (m : St) (s : SpecSt) (op : Op) (h : R m s) (hb : s.live.le
   cases op with
   | load rs =>
     exact ⟨rfl, ⟨rfl, hl, hg, hn⟩, by simp [specStep, opSize]⟩
-  | loadres res ths =>
+  | loadres sc res ths =>
     exact ⟨rfl, ⟨by simp only [step, specStep, hr], hl, hg, hn⟩, by simp [specStep, opSize]⟩
+  | poke res idx thr =>
+    exact ⟨rfl, ⟨by simp only [step, specStep, hr], hl, hg, hn⟩, by simp [specStep, opSize]⟩
+  | getrules res =>
+    exact ⟨by simp only [step, specStep, hr], ⟨hr, hl, hg, hn⟩, by simp [specStep, opSize]⟩
+  | getall =>
+    exact ⟨by simp only [step, specStep, hr], ⟨hr, hl, hg, hn⟩, by simp [specStep, opSize]⟩
   | conc res =>
     refine ⟨?_, ⟨hr, hl, hg, hn⟩, by simp [specStep, opSize]⟩
     simp only [step, specStep]; rw [hg]
@@ -542,7 +548,10 @@ theorem specStep_cap (z : Nat) (s : SpecSt) (o : Op) (hs : seqOp o = true)
     CapInv z (specStep s o).1 ∧ (specStep s o).1.rules = s.rules := by
   cases o with
   | load rs => cases hs
-  | loadres a b => cases hs
+  | loadres a b c => cases hs
+  | poke a b c => cases hs
+  | getrules a => cases hs
+  | getall => cases hs
   | sched a b c d => cases hs
   | soak a b c d => cases hs
   | conc res => exact ⟨h, rfl⟩
@@ -750,5 +759,39 @@ theorem batch_pos_or_zero (b : UInt32) : 1 ≤ b.toNat + (if b = 0 then 1 else 0
   · simp [h]
   · have : b.toNat ≠ 0 := fun e => h (UInt32.toNat_inj.mp (by simpa using e))
     simp only [h, if_false]; omega
+
+end Sentinel.Iso
+
+namespace Sentinel.Iso
+
+/-! ### the enforced list is the list of the latest loads (since `26e3af6`, whatever slice the caller used) -/
+
+theorem specStep_ideal (s : SpecSt) (o : Op) (hs : s.rules = s.ideal) :
+    (specStep s o).1.rules = (specStep s o).1.ideal := by
+  cases o with
+  | load rs => rfl
+  | loadres sc res ths => simp only [specStep, hs]
+  | poke res idx thr => simp only [specStep, hs]
+  | getrules res => exact hs
+  | getall => exact hs
+  | conc res => exact hs
+  | soak a b c d => exact hs
+  | exit id => exact hs
+  | entry id res b =>
+    simp only [specStep]
+    split
+    · exact hs
+    · split <;> exact hs
+  | sched id0 res bs sch =>
+    simp only [specStep]
+    split <;> exact hs
+
+theorem specRun_ideal (h : List Op) (s : SpecSt) (hs : s.rules = s.ideal) :
+    (specRun s h).1.rules = (specRun s h).1.ideal := by
+  induction h generalizing s with
+  | nil => exact hs
+  | cons o r ih =>
+    simp only [specRun]
+    exact ih _ (specStep_ideal s o hs)
 
 end Sentinel.Iso
